@@ -1,6 +1,7 @@
 // C17: drive a real Potassco::StringBuilder with an operation list.
 // Case: kind cap ilen ini... ops...   (see coq/C17/Model.v decode_ops, props/C17.py)
 //   kind 0 StringBuilder(), 1 StringBuilder(std::string&), 2 (buf, cap, Fixed), 3 (buf, cap, Dynamic)
+//   op 9 m off n: append a slice of the builder's own current text (pointer from c_str() / toSpan() / the caller's string)
 // After the constructor and after every operation one record is printed:
 //   exc size bytes[0..size) c_str()[size] maxSize(-1 = unbounded) errno==ERANGE canaries-intact
 // Every case is run TWICE on fresh builders:
@@ -103,6 +104,18 @@ static void runCase(Case& c, Obs& o, bool stale) {
 				}
 				else if (op == 7) { ll n = c.next(); char ch = (char)c.next(); b.resize((std::size_t)(unsigned long long)n, ch); }
 				else if (op == 8) { b.clear(); }
+				else if (op == 9) {
+					// append from the builder's OWN current text: the argument points into the storage the builder reports
+					// (inline buffer / caller's array / caller's or owned std::string), off and n clamped to the text
+					ll m = c.next(), off = c.next(), n = c.next();
+					size_t sz = b.size();
+					size_t o2 = off < 0 ? 0 : ((unsigned long long)off > sz ? sz : (size_t)off);
+					size_t n2 = n < 0 ? 0 : ((unsigned long long)n > sz - o2 ? sz - o2 : (size_t)n);
+					if      (m == 2) { b.append(b.c_str() + o2); }                                             // up to the terminator
+					else if (m == 1) { Potassco::Span<char> sp = b.toSpan(); b.append(sp.first + o2, n2); }
+					else if (m == 3 && kind == 1) { b.append(ext.data() + o2, n2); }                           // the caller's view of its string
+					else             { b.append(b.c_str() + o2, n2); }
+				}
 				else break;
 				er = errno == ERANGE;
 			}
